@@ -296,10 +296,18 @@ def write_evidence(ctx, obs, t0, tgen, tsolve, exit_code, lines, unknown, vanish
             break
     funcs = sorted({o.func for o in obs if o.kind in ('POST', 'EXC', 'FRAME', 'INV', 'VAR', 'PRE')})
     level = 'proof'
+    try:
+        with open(os.path.join(ROOT, 'MANIFEST.json')) as f:
+            for c in json.load(f).get('checks', []):
+                if c['property_id'] == pid:
+                    level = c['level_claimed']['category']
+    except Exception:
+        pass
+    claimed = level
     all_proved = discharged == len(obs) and len(obs) > 0 and not unknown and not vanished
     if not obs:
         level = 'exploration' if ctx.bounded else 'other'
-    elif not all_proved and exit_code == 0 and ctx.bounded:
+    elif claimed == 'proof' and not all_proved and exit_code == 0 and ctx.bounded:
         level = 'exploration'   # degradation path (DESIGN 4.8)
     cov = {
         'obligations': len(obs),
